@@ -722,3 +722,78 @@ func truncationCases(items []item, tls13, tls12sig, every bool) []truncCase {
 	}
 	return out
 }
+
+// handshakeEnd returns the index of the first application data record of the script (0 if there is none).
+func handshakeEnd(items []item) int {
+	for i, it := range items {
+		if it.Typ == 23 && it.Epoch > 0 {
+			return i
+		}
+	}
+	return 0
+}
+
+// postHandshakeTail draws 1-6 records a peer may send once the handshake is over, protected with the keys the
+// script has at that point (a KeyUpdate of the peer moves its later records to the next traffic secret).
+func postHandshakeTail(rng *rand.Rand, hs []item, tls13 bool) (tail []item, desc string) {
+	epoch, ver := 1, uint16(vTLS12)
+	var ticket []byte
+	for _, it := range hs {
+		if it.Epoch > epoch {
+			epoch = it.Epoch
+		}
+		if it.Epoch >= 0 {
+			ver = it.Ver
+		}
+		if it.Typ == 22 && it.Epoch > 0 && len(it.Frag) > 4 && it.Frag[0] == 4 {
+			ticket = it.Frag
+		}
+	}
+	if tls13 && epoch < 2 {
+		epoch = 2 // a client's first application record is the first one under its application traffic secret
+	}
+	n := 1 + rng.IntN(6)
+	for i := 0; i < n; i++ {
+		it := item{Ver: ver, Epoch: epoch}
+		var what string
+		k := rng.IntN(12)
+		switch {
+		case k < 2:
+			it.Typ, it.Frag, what = 23, randBytes(rng, 1+rng.IntN(60)), "data"
+		case k < 5 && tls13:
+			it.Typ, it.Frag, what = 22, []byte{24, 0, 0, 1, 1}, "KeyUpdate(requested)"
+		case k < 6 && tls13:
+			it.Typ, it.Frag, what = 22, []byte{24, 0, 0, 1, 0}, "KeyUpdate(not-requested)"
+		case k < 5:
+			it.Typ, it.Frag, what = 22, []byte{0, 0, 0, 0}, "HelloRequest"
+		case k < 6:
+			it.Typ, it.Frag, what = 21, []byte{1, 100}, "alert(warning,no_renegotiation)"
+		case k < 7:
+			if ticket != nil {
+				it.Typ, it.Frag, what = 22, append([]byte(nil), ticket...), "NewSessionTicket"
+			} else {
+				alts := degenerateBodies(4, tls13, false, nil)
+				b := alts[rng.IntN(len(alts))]
+				it.Typ, it.Frag, what = 22, append([]byte{4, 0, 0, byte(len(b))}, b...), "NewSessionTicket(minimal)"
+			}
+		case k < 9:
+			lvl, d := byte(1+rng.IntN(2)), alertDescs[rng.IntN(len(alertDescs))]
+			it.Typ, it.Frag, what = 21, []byte{lvl, d}, fmt.Sprintf("alert(%d,%d)", lvl, d)
+		case k < 10:
+			it.Typ, it.Frag, what = 23, nil, "empty-data"
+		case k < 11:
+			raw := randBytes(rng, 6+rng.IntN(80))
+			raw[0], raw[1], raw[2], raw[3], raw[4] = byte(20+rng.IntN(4)), 3, 3, 0, byte(len(raw)-5)
+			it = item{Epoch: -1, Raw: raw}
+			what = "garbage-record"
+		default:
+			it.Typ, it.Frag, it.Epoch, what = 22, []byte{24, 0, 0, 1, 1}, 0, "cleartext-KeyUpdate"
+		}
+		tail = append(tail, it)
+		desc += what + " "
+		if tls13 && it.Typ == 22 && it.Epoch > 0 && len(it.Frag) == 5 && it.Frag[0] == 24 {
+			epoch++ // the peer's own sending key moves on after its KeyUpdate
+		}
+	}
+	return tail, desc + "close"
+}
